@@ -308,9 +308,10 @@ HARD_HITS = 0
 # number of queries one task may still spend that do *not* come back unsat (a proof that succeeds
 # does so in milliseconds; a mutated function would otherwise burn every time-out of every open
 # obligation in turn).  Reset by verify_contract.
-SLOW = [12]
+SLOW = [2]
+FALLBACK_LEFT = [2]         # the quantifier-free fallback (counter-model search) is tried for the first two open obligations of a task only
 INC_OPEN = [0]                   # obligations the incremental solver left open in this task (reset by verify_contract)
-INC_OPEN_MAX = 60                # beyond this many, further obligations of the task get only the small feasibility budget in-line
+INC_OPEN_MAX = 30                # beyond this many, further obligations of the task get only the small feasibility budget in-line
 RL_OB_INC = 4_000_000            # incremental obligation check; what it leaves open goes to the standalone query
 RL_OB_EMATCH = 400_000_000       # standalone E-matching query (largest passing one: 125M)
 WALL_SAFETY_MS = 300_000
@@ -501,25 +502,30 @@ def prove(snapshot, goal, timeout_ms=10000, rounds=3, use_cvc5=False, validate=T
     facts, qfacts, bounds = snapshot
     neg = z3.Not(goal)
     t_start = time.time()
-    if SLOW[0] <= 0:
+    if SLOW[0] <= 0 and FALLBACK_LEFT[0] <= 0:
         return Result("unknown", None, len(facts) + len(qfacts), 0.0, backend="z3-ematch",
                       reason="slow-query budget of the task used up")
-    r = check_ematch(facts, qfacts, bounds, [neg], timeout_ms)
-    if r.status in ("unsat", "sat"):
-        return r
-    SLOW[0] -= 1
-    if SLOW[0] <= 0:
-        r.reason = "slow-query budget of the task used up"
-        return r
+    if SLOW[0] > 0:
+        r = check_ematch(facts, qfacts, bounds, [neg], timeout_ms)
+        if r.status in ("unsat", "sat"):
+            return r
+        SLOW[0] -= 1          # an inconclusive standalone query: the task may spend only a few of them
+    else:
+        r = Result("unknown", None, len(facts) + len(qfacts), 0.0, backend="z3-ematch",
+                   reason="standalone-query budget of the task used up")
     t_em = r.time_s
     last = None
     global HARD_HITS
+    if FALLBACK_LEFT[0] <= 0:
+        r.reason = "fallback (own instantiation) budget of this task used up"
+        return r
+    FALLBACK_LEFT[0] -= 1
     if HARD_HITS >= 2:
         # this process already lost two queries to the hard deadline: the remaining open
         # obligations of the task are reported undecided without the slow fallback
         r.reason = "fallback skipped after repeated hard deadlines"
         return r
-    deadline = time.time() + max(15.0, 3.0 * timeout_ms / 1000.0)
+    deadline = time.time() + max(8.0, 1.0 * timeout_ms / 1000.0)
     for nr in ([rounds] if rounds <= 2 else [2, rounds]):
         if last is not None and time.time() > deadline:
             break
@@ -535,8 +541,6 @@ def prove(snapshot, goal, timeout_ms=10000, rounds=3, use_cvc5=False, validate=T
             break
     r = last
     r.time_s += t_em
-    if r.status != "unsat":
-        SLOW[0] -= 1
     if r.status == "unknown" and use_cvc5:
         r2 = check_cvc5(ground, timeout_s=max(10, timeout_ms // 1000))
         if r2.status == "unsat":
